@@ -194,6 +194,17 @@ class CallGraph(object):
                                 return r
         return None
 
+    def is_yacc_parse(self, f, n):
+        """``n`` is a call of .parse() on a ply LALR engine: on self.<yacc attribute> or on a local that was bound to it."""
+        if not (isinstance(n, ast.Call) and isinstance(n.func, ast.Attribute) and n.func.attr == 'parse'):
+            return False
+        v = n.func.value
+        if isinstance(v, ast.Name) and f is not None and not isinstance(f, ast.Lambda):
+            v2 = sa.resolve_local(f, v)
+            if v2 is not v:
+                v = v2
+        return isinstance(v, ast.Attribute) and v.attr in self.yacc_attrs
+
     def _find_ply_attrs(self):
         """Attributes holding ply objects: ``self.x = yacc.yacc(...)`` / ``lex.lex(...)``."""
         yacc_attrs, lex_attrs = set(), set()
@@ -211,6 +222,50 @@ class CallGraph(object):
                                     yacc_attrs.add(t.attr)
                                 if full in ('ply.lex.lex',):
                                     lex_attrs.add(t.attr)
+        if yacc_attrs and lex_attrs:
+            return yacc_attrs, lex_attrs
+        # the ply objects reach the attribute through other names (a table of built engines, a tuple unpacked into self.lex, self.yacc):
+        # follow the value through the assignments of the function, position by position for tuples
+        for m, q, f in model.all_functions():
+            s = sa.self_name(f)
+            kinds = {}          # local name -> 'yacc' | 'lex' | ('tuple', [kinds])
+
+            def kind_of(e):
+                if isinstance(e, ast.Call):
+                    r = model.resolve_attr_chain(m, e.func) if isinstance(e.func, (ast.Name, ast.Attribute)) else None
+                    if r and r[0] == 'extattr':
+                        full = r[1] + '.' + r[2]
+                        if full == 'ply.yacc.yacc':
+                            return 'yacc'
+                        if full == 'ply.lex.lex':
+                            return 'lex'
+                    return None
+                if isinstance(e, ast.Tuple):
+                    ks = [kind_of(x) for x in e.elts]
+                    return ('tuple', ks) if any(ks) else None
+                if isinstance(e, ast.Name):
+                    return kinds.get(e.id)
+                return None
+
+            def bind(t, kd):
+                if kd is None:
+                    return
+                if isinstance(t, ast.Name):
+                    kinds[t.id] = kd
+                elif isinstance(t, ast.Tuple) and isinstance(kd, tuple) and len(kd[1]) == len(t.elts):
+                    for x, k_ in zip(t.elts, kd[1]):
+                        bind(x, k_)
+                elif sa.is_self_attr(t, s):
+                    if kd == 'yacc':
+                        yacc_attrs.add(t.attr)
+                    elif kd == 'lex':
+                        lex_attrs.add(t.attr)
+            for _ in range(3):
+                for n in walk_no_defs(f):
+                    if isinstance(n, ast.Assign):
+                        kd = kind_of(n.value)
+                        for t in n.targets:
+                            bind(t, kd)
         return yacc_attrs, lex_attrs
 
     # -- edges ------------------------------------------------------------------------------
@@ -301,8 +356,7 @@ class CallGraph(object):
                 if cf.name == 'get_for':
                     uses_registry_getter = True
             # ply framework roots
-            if isinstance(n.func, ast.Attribute) and n.func.attr == 'parse' and \
-                    isinstance(n.func.value, ast.Attribute) and n.func.value.attr in self.yacc_attrs:
+            if self.is_yacc_parse(f, n):
                 self.edges[k].update(self.p_roots)
                 self.edges[k].update(self.t_roots)
             # dunder dispatch through an operator table applied to freshly constructed package objects
